@@ -167,6 +167,24 @@ CHECKS = {
              'the table rejects, all trees unchanged on rejection, ==/!= equal model-tree equality, and equal trees '
              'to serialise identically.',
         ref='6 C19'),
+    'C15': dict(
+        technique='TLA+ codec/newline spec (Codec.tla NL = BOM-free encoding; Content.tla Detect) evaluated by TLC '
+                  'on every spelling of every stateless codec (Trace_Codec) + written/read-back sections per '
+                  'spelling (Trace_WriteRead scope+read clauses)',
+        text='For each stateless text codec Python provides and each spelling that can stand as an option value '
+             '(aliases, case, -/_ variants; not numeric) x unix/dos x probes, TLC requires get_newline_for_type and '
+             'guess_line_endings to equal NL/Detect computed from the canonical codec\'s descriptor, and a file '
+             'written and read back under the spelling to hold / return the text with a BOM-free newline.',
+        ref='6 C15',
+        note=TRUST + '; Python\'s alias table'),
+    'C20': dict(
+        technique='TLC-evaluated token-stream predicates (Trace_Lex) with header tokens decided against Writer.tla',
+        text='Every token list of DiffXLexer (writer-produced UTF-8 files from Gen_Writer behaviours; random, '
+             'DiffX-shaped and corrupted strings) is checked by TLC: token values concatenate to the input; for '
+             'writer files no Error token and the header-shaped Name.Tag tokens are exactly "#id:" for the records '
+             'Writer.tla promises for the same calls. The specification contributes the expected headers; the '
+             'losslessness half is a one-line predicate.',
+        ref='6 C20'),
 }
 
 PENDING = {}
